@@ -59,6 +59,9 @@ def realise(hist, eol=b"\n", xref_w=(1, 4, 2), zero_type_width=False):
                              root=Ref(1) if k == 1 else None, info={"Rev": k} if (k == 1 or r["newroot"]) else None,
                              eol=eol,
                              omit_index=bool(zero_type_width),
+                             # the same variant number also selects how the classic-table trailer is laid out:
+                             # `trailer` EOL dict | `trailer <<...>>` on one line | `trailer <<` EOL entries EOL `>>`
+                             trailer_style=int(zero_type_width),
                              xref_w=_special_w(xref_w, zero_type_width) if (zero_type_width and k > 1 and r["form"] == "stream"
                                                                              and not r["packed"] and r["split"]) else xref_w))
     return build(revs)[0]
@@ -217,10 +220,12 @@ def text_doc(nobj, eol, seed):
     rng = random.Random(seed)
     objs = {1: {"Type": Name("Catalog"), "Pages": Ref(2)}, 2: {"Type": Name("Pages"), "Kids": [Ref(3)], "Count": 1},
             3: {"Type": Name("Page"), "Parent": Ref(2), "MediaBox": [0, 0, 300, 300], "Resources": {"Font": {"F1": Ref(5)}}, "Contents": Ref(4)},
-            4: Stream({}, b"BT /F1 12 Tf 20 200 Td (damaged %d) Tj ET" % seed), 5: type1_font()}
+            # the payload's last line matters and, in two of three documents, `endstream` follows it without an end-of-line
+            4: Stream({}, b"BT /F1 12 Tf 20 200 Td (damaged %d) Tj\n0 -14 Td (line two) Tj ET" % seed,
+                      eol_before_end=[b"\n", b"", b" "][seed % 3]), 5: type1_font()}
     for i in range(nobj):
         objs[6 + i] = {"Obj": i, "Ver": 1, "Pad": "x" * rng.randrange(0, 40)}
-    return objs, build([Revision(objs, form="table", root=Ref(1), eol=eol)])
+    return objs, build([Revision(objs, form="table", root=Ref(1), eol=eol, trailer_style=(seed // 3) % 3)])
 
 
 def direction_a3(ck):
